@@ -106,6 +106,21 @@ def _alpha(node, keep, names):
     return ast.unparse(ast.fix_missing_locations(node))
 
 
+def _bound_names(n):
+    """Names a definition / assignment / loop / parameter / import node binds."""
+    if isinstance(n, ast.Assign):
+        return {x.id for t in n.targets for x in ast.walk(t) if isinstance(x, ast.Name)}
+    if isinstance(n, (ast.AugAssign, ast.AnnAssign, ast.For)):
+        return {x.id for x in ast.walk(n.target) if isinstance(x, ast.Name)}
+    if isinstance(n, (ast.FunctionDef, ast.ClassDef)):
+        return {n.name}
+    if isinstance(n, ast.arg):
+        return {n.arg}
+    if isinstance(n, ast.alias):
+        return {(n.asname or n.name).split(".")[0]}
+    return set()
+
+
 def find(mod, path):
     node = mod
     for p in path.split("."):
@@ -182,7 +197,7 @@ class Tr:
         if not (isinstance(test, ast.Call) and ast.unparse(test.func) == "isinstance"
                 and len(test.args) == 2 and not test.keywords):
             return False
-        tys = test.args[1]
+        tys = self.facts.constant(test.args[1])
         names = [ast.unparse(x) for x in tys.elts] if isinstance(tys, ast.Tuple) \
             else [ast.unparse(tys)]
         if not names or not all(n in DATETIME_TYPES for n in names):
@@ -730,10 +745,6 @@ METHODS = {
                         defaults={"cutoff": ("None", "NONE", False)}, ret="F", raises=True),
     "to_absolute": dict(coq="gen_to_absolute", params=["cutoff"], types=["OZ"], ret="F",
                         raises=True),
-    "_is_in_sample": dict(coq="gen_is_in_sample", params=["cutoff"], types=["OZ"],
-                          defaults={"cutoff": ("None", "NONE", False)}, ret="M", raises=True),
-    "_is_out_of_sample": dict(coq="gen_is_out_of_sample", params=["cutoff"], types=["OZ"],
-                              defaults={"cutoff": ("None", "NONE", False)}, ret="M", raises=True),
 }
 
 SELF = ("self", "self", "F")
@@ -768,9 +779,13 @@ FUNCS = [
     dict(src="fh", path="ForecastingHorizon.to_absolute_int", coq="gen_to_absolute_int",
          params=[SELF, ("start", "start", "Z"), CUTOFF], ret="F", raises=True,
          defaults={"cutoff": None}),
-    dict(src="fh", path="ForecastingHorizon._is_in_sample", coq="gen_is_in_sample",
+    # the boolean masks of the in-sample / out-of-sample steps: a ROLE, not a method - the expression
+    # to_in_sample / to_out_of_sample select the wrapped values with, wherever it is computed (a
+    # private method of any name, inlined here like every other helper, or written in place); the
+    # public methods below always get it inlined
+    dict(src="fh", path="ForecastingHorizon.to_in_sample", mask=True, coq="gen_is_in_sample",
          params=[SELF, CUTOFF], ret="M", raises=True, defaults={"cutoff": None}),
-    dict(src="fh", path="ForecastingHorizon._is_out_of_sample", coq="gen_is_out_of_sample",
+    dict(src="fh", path="ForecastingHorizon.to_out_of_sample", mask=True, coq="gen_is_out_of_sample",
          params=[SELF, CUTOFF], ret="M", raises=True, defaults={"cutoff": None}),
     dict(src="fh", path="ForecastingHorizon.to_in_sample", coq="gen_to_in_sample",
          params=[SELF, CUTOFF], ret="F", raises=True, defaults={"cutoff": None}),
@@ -896,11 +911,6 @@ class Facts:
             raise Unsupported("role _check_cutoff: %s / %s" % (a, b))
         roles["_check_cutoff"] = one("_check_cutoff", a)
         roles["_check_start"] = one("_check_start", fun_calls(root("to_absolute_int"), stmt_only=True))
-        # the private mask methods behind is_all_in_sample / is_all_out_of_sample
-        r = root("is_all_in_sample")
-        roles["_is_in_sample"] = one("_is_in_sample", meth_calls(r, recv_of(r)))
-        r = root("is_all_out_of_sample")
-        roles["_is_out_of_sample"] = one("_is_out_of_sample", meth_calls(r, recv_of(r)))
         # the private copy-constructor: the private method every conversion builds its result with
         cands = None
         for name in ("to_relative", "to_absolute", "to_absolute_int"):
@@ -932,6 +942,20 @@ class Facts:
             return (head + "." if head else "") + self.actual[last]
         return path
 
+    def constant(self, e):
+        """A name bound exactly once, at module level, to a tuple of dotted names: its value
+        (module-level constants for repeated type tuples are resolved by value)."""
+        if isinstance(e, ast.Name) and e.id not in TYPE_SETS:
+            hits = [n for n in ast.walk(self.mod)
+                    if isinstance(n, (ast.Assign, ast.AugAssign, ast.AnnAssign, ast.For,
+                                      ast.FunctionDef, ast.ClassDef, ast.arg, ast.alias))
+                    and e.id in _bound_names(n)]
+            if len(hits) == 1 and isinstance(hits[0], ast.Assign) and hits[0] in self.mod.body \
+                    and isinstance(hits[0].value, ast.Tuple) and all(
+                        isinstance(x, (ast.Name, ast.Attribute)) for x in hits[0].value.elts):
+                return hits[0].value
+        return e
+
     def require_delegated(self, name):
         if name not in self.delegated:
             raise Unsupported("%s is no longer delegated to the wrapped index" % name)
@@ -943,12 +967,95 @@ class Facts:
             raise Unsupported("method %s missing" % name)
 
 
+def _mask_expr(fn, cls, depth=0):
+    """The boolean mask the method `fn` selects the wrapped values with, as an expression over the
+    parameters of `fn`: the slice of the one subscript `<values>[<mask>]` in its body - or in the
+    private method of the class it hands the mask to - with the single-assignment temporaries
+    substituted."""
+    import copy
+    counts, value = {}, {}
+    for st in fn.body:
+        for x in ast.walk(st):
+            if isinstance(x, ast.Name) and isinstance(x.ctx, ast.Store):
+                counts[x.id] = counts.get(x.id, 0) + 1
+    for st in fn.body:                      # top-level single assignments only
+        if isinstance(st, ast.Assign) and len(st.targets) == 1 \
+                and isinstance(st.targets[0], ast.Name) and counts[st.targets[0].id] == 1:
+            value[st.targets[0].id] = st.value
+    params = [a.arg for a in fn.args.args]
+
+    class Sub(ast.NodeTransformer):
+        def __init__(self, table, recursive=True):
+            self.table, self.depth, self.recursive = table, 0, recursive
+
+        def visit_Name(self, n):
+            if isinstance(n.ctx, ast.Load) and n.id in self.table:
+                if not self.recursive:      # arguments live in the caller's namespace
+                    return copy.deepcopy(self.table[n.id])
+                if self.depth > 10:
+                    raise Unsupported("cyclic temporaries in " + fn.name)
+                self.depth += 1
+                r = self.visit(copy.deepcopy(self.table[n.id]))
+                self.depth -= 1
+                return r
+            return n
+    found = []
+    for st in fn.body:
+        for n in ast.walk(st):
+            if isinstance(n, ast.Subscript):
+                found.append(n.slice)
+            elif depth < 3 and isinstance(n, ast.Call) and isinstance(n.func, ast.Attribute) \
+                    and isinstance(n.func.value, ast.Name) and params \
+                    and n.func.value.id == params[0] and n.func.attr.startswith("_") \
+                    and not n.func.attr.startswith("__"):
+                m = [x for x in cls.body if isinstance(x, ast.FunctionDef) and x.name == n.func.attr]
+                if not m or m[0].decorator_list:
+                    continue
+                a = m[0].args
+                if a.vararg or a.kwarg or a.kwonlyargs or a.posonlyargs:
+                    continue
+                try:
+                    inner = _mask_expr(m[0], cls, depth + 1)
+                except Unsupported:
+                    continue
+                names = [x.arg for x in a.args][1:]
+                if len(n.args) > len(names) or any(k.arg not in names for k in n.keywords):
+                    continue
+                given = dict(zip(names, n.args))
+                given.update({k.arg: k.value for k in n.keywords})
+                dflt = dict(zip(names[len(names) - len(a.defaults):], a.defaults))
+                table = {x: given.get(x, dflt.get(x)) for x in names}
+                if any(v is None for v in table.values()):
+                    continue
+                table[[x.arg for x in a.args][0]] = ast.Name(id=params[0], ctx=ast.Load())
+                found.append(Sub(table, recursive=False).visit(copy.deepcopy(inner)))
+    if len(found) != 1:
+        raise Unsupported("%s: %d selections, expected one" % (fn.name, len(found)))
+    mask = Sub({k: v for k, v in value.items() if k not in params}).visit(copy.deepcopy(found[0]))
+    free = {n.id for n in ast.walk(mask) if isinstance(n, ast.Name)} - set(params)
+    if free & set(counts):
+        raise Unsupported("%s: the selection mask depends on %s" % (fn.name, sorted(free & set(counts))))
+    return mask
+
+
+def selection_mask(fn, cls):
+    """`def f(<parameters of fn>): return <mask>` for the mask of `_mask_expr`."""
+    out = ast.FunctionDef(name=fn.name + "<mask>", args=fn.args,
+                          body=[ast.Return(value=_mask_expr(fn, cls))],
+                          decorator_list=[], lineno=fn.lineno)
+    return ast.fix_missing_locations(out)
+
+
 def translate_function(mod, cfg, facts):
     label = cfg["path"].rpartition(".")[2]
     private = cfg["src"] == "fh" and label in facts.actual
     fn = find(mod, facts.path(cfg["path"]) if cfg["src"] == "fh" else cfg["path"])
     if not isinstance(fn, ast.FunctionDef):
         raise Unsupported(cfg["path"] + " is not a function")
+    if cfg.get("mask"):
+        if [ast.unparse(d) for d in fn.decorator_list] != cfg.get("decorators", []):
+            raise Unsupported("%s: decorators" % cfg["path"])
+        fn = selection_mask(fn, find(mod, cfg["path"].rpartition(".")[0]))
     if private:
         # the parameter names of a private helper are its own: bound by position
         declared = [x.arg for x in fn.args.args]
